@@ -1,4 +1,5 @@
 import YaqsModel.Lemmas.Mps
+import YaqsModel.Lemmas.MpsBridge
 
 /-!
 # C10 — canonicalisation and gauge moves never change the represented state
@@ -464,5 +465,161 @@ example : ∀ cfg ∈ [[0, 0], [0, 1], [1, 0], [1, 1]],
     amp [(shiftRightQR exT0 exT1 exQm exRm).1, (shiftRightQR exT0 exT1 exQm exRm).2] cfg = amp [exT0, exT1] cfg := by
   decide +kernel
 example : amp [exT0, exT1] [1, 1] = some ⟨3, 6⟩ := by decide +kernel
+
+end Yaqs.Mps
+
+/-! ## the theorems above, stated on the EXECUTABLE list model
+
+`Lemmas/MpsBridge.lean` maps the list model the correspondence check runs against the real code
+(`Tensor = List (List (List CRat))`, `amp`, `shiftRightQR`, `flip`, `padAll`) to the Matrix-valued site tensors of the
+theorems above: `toMatrixChain n` zero-pads every bond into the uniform `Fin n`.  The corollaries below therefore talk
+about exactly the functions the driver evaluates, for every chain length, every bond dimension and every tensor over
+ℚ(i).  Well-shapedness is the decidable predicate `wellShapedChain n ts` (every tensor a `(phys, left, right)` block
+with dimensions `≥ 1`, bonds `≤ n`, consecutive bonds equal, boundary bonds 1); a valid configuration is `cfgOK ts cfg`. -/
+
+namespace Yaqs.Mps
+
+/-- **C10.15 (`amp_eq_chain`: list model = Matrix model)** for every chain length and every well-shaped tensor list the
+    amplitude `amp ts cfg` of the executable model (the entry of `MPS.to_vec`) is the `(0,0)` entry of the chain
+    product of the zero-padded matrices — the quantity C10.1–C10.9 are about. -/
+theorem c10_exec_amp_eq_chain (n : Nat) (hn : 0 < n) (ts : List Tensor) (cfg : List Nat)
+    (hws : wellShapedChain n ts = true) (hcfg : cfgOK ts cfg = true) :
+    amp ts cfg = some (Alg.chain (toMatrixChain n ts) cfg ⟨0, hn⟩ ⟨0, hn⟩) :=
+  amp_eq_chain n hn ts cfg hws hcfg
+
+/-- **C10.16 (executable QR shift)** for a well-shaped chain and QR factors of the right shape with `A = Q·R`
+    entrywise (`matMul q r = flattenRows a`: the spec of `np.linalg.qr`, spec-tied on every run), every amplitude of
+    the list model is unchanged by the executable `shiftRightQR` — at every position of every chain.
+    Proof: bridge to the Matrix chain (`amp_shiftRightQR_eq_chain`, `shiftRightQR_bridge_left`), then C10.1. -/
+theorem c10_exec_shift_preserves_amp (n : Nat) (hn : 0 < n) (pre post : List Tensor) (a b : Tensor) (q r : Mat)
+    (hws : wellShapedChain n (pre ++ a :: b :: post) = true) (hqs : qrShaped n a q r = true)
+    (hqr : matMul q r = flattenRows a) (cfg : List Nat) (hcfg : cfgOK (pre ++ a :: b :: post) cfg = true) :
+    amp (pre ++ (shiftRightQR a b q r).1 :: (shiftRightQR a b q r).2 :: post) cfg =
+      amp (pre ++ a :: b :: post) cfg := by
+  obtain ⟨hall, -⟩ := (wellShapedChain_iff n _).mp hws
+  obtain ⟨_, hkn, hq, hr⟩ := (qrShaped_iff n a q r).mp hqs
+  have ha := (hall a (by simp)).1
+  have hA : ∀ s, toSite n a s = toSite n (shiftRightQR a b q r).1 s * toMat n r := fun s =>
+    shiftRightQR_bridge_left n a b q r ha hqr (fun row hrow => by rw [hq row hrow]; exact hkn)
+      (fun row hrow => by
+        rw [hr row hrow]
+        cases r with
+        | nil => simp at hrow
+        | cons r0 r' => simp [ncols, hr r0 (by simp)]) s
+  have hlen : (toMatrixChain n pre).length + 2 ≤ cfg.length := by
+    have := cfgOK_length _ _ hcfg
+    simp at this ⊢; omega
+  rw [amp_shiftRightQR_eq_chain n hn pre post a b q r hws hqs hqr cfg hcfg, amp_eq_chain n hn _ cfg hws hcfg,
+    Alg.c10_shift_right_QR (toMatrixChain n pre) (toMatrixChain n post) _ (toSite n a) (toSite n b) (toMat n r) hA cfg hlen]
+  simp [toMatrixChain]
+
+/-- the list-model example of above (`exT0 = exQm · exRm`) meets every hypothesis with `n = 2`, and the conclusion is
+    the equality of two concrete amplitudes -/
+example : wellShapedChain 2 ([] ++ exT0 :: exT1 :: []) = true ∧ qrShaped 2 exT0 exQm exRm = true ∧
+    matMul exQm exRm = flattenRows exT0 ∧ cfgOK ([] ++ exT0 :: exT1 :: []) [1, 1] = true ∧
+    amp [(shiftRightQR exT0 exT1 exQm exRm).1, (shiftRightQR exT0 exT1 exQm exRm).2] [1, 1] = some ⟨3, 6⟩ := by
+  refine ⟨by decide +kernel, by decide +kernel, by decide +kernel, by decide +kernel, by decide +kernel⟩
+
+/-- **C10.17 (executable flip)** for a well-shaped chain every amplitude of the list model is unchanged by the
+    executable `flip` (`flip_network`), read with the reversed configuration.
+    Proof: `flip_bridge` (list flip = `Alg.flip` on the padded matrices), then C10.3; the `(0,0)` entry of a transpose
+    is the `(0,0)` entry. -/
+theorem c10_exec_flip_preserves_amp (n : Nat) (hn : 0 < n) (ts : List Tensor) (cfg : List Nat)
+    (hws : wellShapedChain n ts = true) (hcfg : cfgOK ts cfg = true) :
+    amp (flip ts) cfg.reverse = amp ts cfg := by
+  rw [amp_flip_eq_chain n hn ts cfg hws hcfg, amp_eq_chain n hn ts cfg hws hcfg,
+    Alg.c10_flip_chain (toMatrixChain n ts) cfg (by simpa using cfgOK_length _ _ hcfg)]
+  rfl
+
+/-- **C10.18 (executable pad)** for a well-shaped chain, whenever the enlargement loop of `pad_bond_dimension` does not
+    raise (`padAll ts target = some out`), every amplitude of the list model is unchanged by it — every length, every
+    target.  (The final `normalize()` of the method is C10.8/C10.8d.)
+    Proof: `pad_bridge` — as Matrix-valued site tensors over the uniform bond type the padded tensors *are* the old
+    ones; `padTensor_bridge` identifies this with `Alg.padSite` of C10.6. -/
+theorem c10_exec_pad_preserves_amp (n : Nat) (ts out : List Tensor) (target : Nat) (cfg : List Nat)
+    (hpad : padAll ts target = some out) (hws : wellShapedChain n ts = true) (hcfg : cfgOK ts cfg = true) :
+    amp out cfg = amp ts cfg := by
+  rw [amp_padAll_eq_chain n ts out target cfg hpad hws hcfg,
+    amp_eq_chain (n + target + 1) (Nat.succ_pos _) ts cfg (wellShapedChain_mono n _ (by omega) ts hws) hcfg]
+
+/-- **C10.18b (`pad_bridge`, Matrix counterpart)** the executable `padTensor`, read in the enlarged uniform bond type
+    `Fin (n + k) ≃ Fin n ⊕ Fin k`, is the `padSite` of C10.6 applied to the unpadded tensor read in `Fin n`. -/
+theorem c10_exec_pad_is_padSite (n k : Nat) (t : Tensor) (lt rt : Nat) (ht : wellShaped t = true)
+    (hl : leftDim t ≤ lt) (hr : rightDim t ≤ rt) (hln : leftDim t ≤ n) (hrn : rightDim t ≤ n) (s : Nat) :
+    (toSite (n + k) (padTensor t lt rt) s).submatrix finSumFinEquiv finSumFinEquiv =
+      Alg.padSite (κ := Fin k) (toSite n t) s :=
+  padTensor_bridge n k t lt rt ht hl hr hln hrn s
+
+/-- a three-site well-shaped chain (bonds 1-2-2-1): hypotheses of C10.17 / C10.18 hold, the padded chain really has
+    larger bonds, and the flipped / padded amplitudes agree with the original one -/
+def exT2 : Tensor := [[[⟨1, 0⟩, ⟨0, 2⟩], [⟨0, 0⟩, ⟨1, 1⟩]], [[⟨2, 0⟩, ⟨0, 0⟩], [⟨1, 0⟩, ⟨0, -1⟩]]]   -- shape (2,2,2)
+
+example : wellShapedChain 2 [exT0, exT2, exT1] = true ∧ cfgOK [exT0, exT2, exT1] [1, 0, 1] = true ∧
+    amp (flip [exT0, exT2, exT1]) [1, 0, 1] = amp [exT0, exT2, exT1] [1, 0, 1] ∧
+    (padAll [exT0, exT2, exT1] 4).map (fun o => o.map (fun t => (leftDim t, rightDim t))) = some [(1, 2), (2, 2), (2, 1)] ∧
+    (padAll [exT0, exT1] 4).map (fun o => o.map (fun t => (leftDim t, rightDim t))) = some [(1, 2), (2, 1)] ∧
+    padAll [exT0, exT2, exT1] 1 = none := by
+  refine ⟨by decide +kernel, by decide +kernel, by decide +kernel, by decide +kernel, by decide +kernel,
+    by decide +kernel⟩
+
+/-- a product state (all bonds 1) padded to target 2: the middle bonds really grow, the amplitude stays -/
+def exP0 : Tensor := [[[⟨1, 0⟩]], [[⟨0, 2⟩]]]
+example : wellShapedChain 1 [exP0, exP0, exP0, exP0] = true ∧
+    (padAll [exP0, exP0, exP0, exP0] 2).map (fun o => o.map (fun t => (leftDim t, rightDim t)))
+      = some [(1, 2), (2, 2), (2, 2), (2, 1)] ∧
+    (padAll [exP0, exP0, exP0, exP0] 2).bind (fun o => amp o [1, 0, 1, 1]) = amp [exP0, exP0, exP0, exP0] [1, 0, 1, 1] ∧
+    amp [exP0, exP0, exP0, exP0] [1, 0, 1, 1] = some ⟨0, -8⟩ := by
+  refine ⟨by decide +kernel, by decide +kernel, by decide +kernel, by decide +kernel⟩
+
+/-- **C10.19 (the executable moves keep a chain well-shaped)** so C10.16–C10.18 compose along any sequence of
+    executable moves: the QR shift and the flip keep `wellShapedChain n`, the padding loop gives a chain that is
+    well-shaped for the enlarged bound. -/
+theorem c10_exec_moves_keep_wellShaped (n : Nat) :
+    (∀ (pre post : List Tensor) (a b : Tensor) (q r : Mat),
+      wellShapedChain n (pre ++ a :: b :: post) = true → qrShaped n a q r = true → matMul q r = flattenRows a →
+      wellShapedChain n (pre ++ (shiftRightQR a b q r).1 :: (shiftRightQR a b q r).2 :: post) = true) ∧
+    (∀ ts : List Tensor, wellShapedChain n ts = true → wellShapedChain n (flip ts) = true) ∧
+    (∀ (ts out : List Tensor) (target : Nat), padAll ts target = some out → wellShapedChain n ts = true →
+      wellShapedChain (n + target + 1) out = true) :=
+  ⟨fun pre post a b q r h1 h2 h3 => shiftRightQR_wellShapedChain n pre post a b q r h1 h2 h3,
+   fun ts h => flip_wellShapedChain n ts h,
+   fun ts out target h1 h2 => padAll_wellShapedChain n ts out target h1 h2⟩
+
+/-- **C10.20 (`to_vec` of the executable model)** the whole dense vector `toVec` (what the oracle of the check compares
+    before / after on the real code) is unchanged by the executable QR shift and by the executable padding loop. -/
+theorem c10_exec_shift_preserves_toVec (n : Nat) (hn : 0 < n) (pre post : List Tensor) (a b : Tensor) (q r : Mat)
+    (hws : wellShapedChain n (pre ++ a :: b :: post) = true) (hqs : qrShaped n a q r = true)
+    (hqr : matMul q r = flattenRows a) :
+    toVec (pre ++ (shiftRightQR a b q r).1 :: (shiftRightQR a b q r).2 :: post) = toVec (pre ++ a :: b :: post) := by
+  obtain ⟨hall, -⟩ := (wellShapedChain_iff n _).mp hws
+  obtain ⟨hk1, _, hq, _⟩ := (qrShaped_iff n a q r).mp hqs
+  refine toVec_congr _ _ ?_ (fun t ht => ((wellShaped_iff t).mp (hall t ht).1).1)
+    (fun cfg hcfg => c10_exec_shift_preserves_amp n hn pre post a b q r hws hqs hqr cfg hcfg)
+  have h1 := (shiftRightQR_shape_left a b q r (hall a (by simp)).1 hqr hk1 hq).2.2.2
+  have h2 := (shiftRightQR_shape_right a b q r (hall b (by simp)).1 hk1).2.2.2
+  simp [physDim, h1, h2]
+
+theorem c10_exec_pad_preserves_toVec (n : Nat) (ts out : List Tensor) (target : Nat)
+    (hpad : padAll ts target = some out) (hws : wellShapedChain n ts = true) : toVec out = toVec ts := by
+  obtain ⟨hall, -⟩ := (wellShapedChain_iff n _).mp hws
+  refine toVec_congr _ _ ?_ (fun t ht => ((wellShaped_iff t).mp (hall t ht).1).1)
+    (fun cfg hcfg => c10_exec_pad_preserves_amp n ts out target cfg hpad hws hcfg)
+  obtain ⟨hlen, hspec⟩ := padAll_go_spec target ts.length ts 0 out hpad
+  apply List.ext_getElem
+  · simp [hlen]
+  · intro k h1 h2
+    simp only [List.getElem_map]
+    have hk : k < ts.length := by simpa using h2
+    obtain ⟨e, _, _⟩ := hspec k hk (by simpa using h1)
+    rw [e]
+    simp [physDim, padTensor_eq]
+
+example : toVec [exT0, exT1] = [some ⟨2, 2⟩, some ⟨0, 1⟩, some ⟨14, 16⟩, some ⟨3, 6⟩] ∧
+    toVec [(shiftRightQR exT0 exT1 exQm exRm).1, (shiftRightQR exT0 exT1 exQm exRm).2] = toVec [exT0, exT1] := by
+  refine ⟨by decide +kernel, by decide +kernel⟩
+
+/-- the predicate really rejects: a chain whose bonds do not match, and a configuration out of range -/
+example : wellShapedChain 2 [exT1, exT0] = false ∧ cfgOK [exT0, exT1] [2, 0] = false ∧ cfgOK [exT0, exT1] [0] = false := by
+  refine ⟨by decide +kernel, by decide +kernel, by decide +kernel⟩
 
 end Yaqs.Mps
